@@ -213,12 +213,14 @@ func (m *Manager) SetSubscriberQoS(qos *SubscriberQoS) error {
 			return fmt.Errorf("failed to set egress QoS: %w", err)
 		}
 	}
+	m.verifStep(1)
 
 	if m.qosIngress != nil {
 		if err := m.qosIngress.Put(&key, ingressTB); err != nil {
 			return fmt.Errorf("failed to set ingress QoS: %w", err)
 		}
 	}
+	m.verifStep(2)
 
 	// Track locally
 	m.subscribersMu.Lock()
@@ -269,9 +271,11 @@ func (m *Manager) RemoveSubscriberQoS(ip net.IP) error {
 	if m.qosEgress != nil {
 		m.qosEgress.Delete(&key)
 	}
+	m.verifStep(3)
 	if m.qosIngress != nil {
 		m.qosIngress.Delete(&key)
 	}
+	m.verifStep(4)
 
 	// Remove from local tracking
 	m.subscribersMu.Lock()
